@@ -100,6 +100,10 @@ THEOREMS = {
     "C19_model_is_source_run_first_prospective_batch_plate": "the same for run_first_prospective_batch_plate: --mode prospective --screen S = LProsp S",
     "C19_model_is_source_run_subsequent_batch_plate": "the same for run_subsequent_batch_plate (called by both translated steps): --mode next_plate --reveal true, --screen, the thetas / distance-matrix globs of one directory t, "
                                                       "the optional --excludes word (none when excludes is None) = LNext S t excludes",
+    "C19_model_is_source_dir_sort_key": "the WHOLE function dir_sort_key (int(os.path.basename(x).split('_')[1])), re-translated on every run over path NAMES: on any path whose last component is "
+                                        "'<prefix>_<decimal numeral of i>' (prefix without '_') it returns i",
+    "C19_model_is_source_dir_sort_key_iter_index": "on the name '<out>/iter_<i>' of a globbed iteration directory (i >= 0) the translated dir_sort_key returns iter_index of its model value: the index primitive of examine's configuration",
+    "C19_model_is_source_dir_sort_key_plate_index": "the same for '<out>/iter_<i>/plate_<j>' and plate_index",
     "C19_model_is_source_main": "the WHOLE function main(), re-translated on every run (mode dispatch: which translated run_next_* the variable run_next holds; `while True` as recursion on explicit fuel; "
                                 "every call runs the translated function in the world; `if not should_run_again: break`): for fuel >= the number of times the loop body is started it equals the model's "
                                 "invocation for every tree, schedule, batch size - same final tree, remaining schedule, calls and end (returned / exception out of main() / observation ends)",
@@ -170,7 +174,11 @@ EXPLANATION = ("Model: Model/Orchestrate.v (calls: attempt/script_run; invocatio
                "run_next(output_dir=, input_screen=, extra_args=, batch_size=) is in a world with crashes: the translated function is applied to the tree as it is now, its result (value + actions / exception after "
                "some actions / named directory) is played against the next crash-schedule entry by the rule of Orchestrate.attempt (exec_result; C19_model_is_source_main_call_is_attempt proves it IS attempt), the "
                "value reaches main() only if the call ran to its return, an empty schedule ends the observation.  "
-               "NOT translated: dir_sort_key, get_args, the path helpers get_main_nf_file / get_repository_root.")
+               "DIR_SORT_KEY (C19_model_is_source_dir_sort_key*): translated over path NAMES (a path = the list of its components, a component = its code points) with the primitives os.path.basename = last "
+               "component, s.split('_') = the pieces between underscores, l[1] = second piece or IndexError, int(s) = the value of an unsigned ASCII decimal numeral (anything else: ValueError - Python's int also accepts a sign, "
+               "surrounding white space and non-ASCII digits, which the model does not represent); proved to return i on '.../<prefix>_<numeral of i>', i.e. the index primitives iter_index / plate_index that examine's "
+               "configuration gives to dir_sort_key(x) on the model value of 'iter_<i>' / 'plate_<j>' (i, j >= 0; a directory named e.g. iter_-1 or iter_1_old is outside the model).  examine itself still uses the index primitive "
+               "(its paths are model values, not names).  NOT translated: get_args, the path helpers get_main_nf_file / get_repository_root / get_script_location / get_nextflow_dir / get_base_config.")
 
 KINDS = ["training", "test", "thetas", "dist", "selected", "advanced", "meta"]
 FILES = ["training.screen.h5", "test.screen.h5", "thetas_0.h5", "distance_matrix_chunk_0.h5", "selected_plate",
